@@ -309,6 +309,11 @@ func c06ImageOne(r *fw.Rec, rd *c06Reader, allowLarge bool, shared gozxing.Reade
 	}
 	r.Tally("image class " + class)
 	withoutHints := hints == nil && rng.Intn(3) == 0
+	srcKind := 0
+	if rng.Intn(4) == 0 {
+		srcKind = 1 + rng.Intn(2)
+		r.Tally("images through the RGB / planar YUV luminance sources")
+	}
 	for _, bz := range c06Binarizers {
 		bz := bz
 		data := func() map[string]interface{} {
@@ -316,7 +321,25 @@ func c06ImageOne(r *fw.Rec, rd *c06Reader, allowLarge bool, shared gozxing.Reade
 				"image_type": fmt.Sprintf("%T", img), "png_base64": c06PNG(img)}
 		}
 		newBitmap := func() *gozxing.BinaryBitmap {
-			bmp, err := gozxing.NewBinaryBitmap(bz.mk(gozxing.NewLuminanceSourceFromImage(img)))
+			var src gozxing.LuminanceSource = gozxing.NewLuminanceSourceFromImage(img)
+			// the same picture through the other luminance sources of the library (packed RGB ints,
+			// a planar YUV frame): these cannot be rotated, which the readers have to cope with
+			switch srcKind {
+			case 1:
+				lum := src.GetMatrix()
+				px := make([]int, len(lum))
+				for i, l := range lum {
+					px[i] = 0xFF000000 | int(l)<<16 | int(l)<<8 | int(l)
+				}
+				src = gozxing.NewRGBLuminanceSource(b.Dx(), b.Dy(), px)
+			case 2:
+				y, e := gozxing.NewPlanarYUVLuminanceSource(append([]byte{}, src.GetMatrix()...), b.Dx(), b.Dy(), 0, 0, b.Dx(), b.Dy(), false)
+				if e != nil {
+					panic(e)
+				}
+				src = y
+			}
+			bmp, err := gozxing.NewBinaryBitmap(bz.mk(src))
 			if err != nil {
 				panic(err)
 			}
@@ -1497,7 +1520,7 @@ func c06AzECI(r *fw.Rec, lo, hi, step int) {
 // ---------------------------------------------------------------------------
 
 func c06(c *fw.Ctx) {
-	c.Rule("19 reader configurations (QR, Data Matrix, Aztec, QR multi reader through Decode and DecodeMultiple, EAN-13, EAN-8, UPC-A, UPC-E, multi-format UPC/EAN with and without POSSIBLE_FORMATS, Code 39 x {check, extended}, Code 93, Code 128, ITF, Codabar, RSS-14), each on seeded images through BOTH the hybrid and the global-histogram binariser: valid symbols of the reader's symbology (library writers, qrref/dmref/azref/onedref, an RSS-14 encoder) unmutated in a scanner-friendly rendering, or mutated at module level (flips, row/column deletion and duplication, crops through finder/guards, pasted noise, truncation, mirroring/inversion, combinations) and rendered with scale 1-4, quiet zone 0-10, arbitrary grey levels incl. low contrast, grey ramps, pixel noise and flips, alpha (NRGBA constant / noisy / symbol carried by alpha), RGBA tints, Gray16, Paletted, sub-images with a non-zero origin, canvases of 39/40/41 pixels and up to 800 pixels, one image in five turned by an arbitrary angle / sheared / scaled by a real factor; every second case keeps one reader instance for all its images; symbols of other symbologies; synthetic images (noise, constant, 1x1..3x3, stripes, checkerboards, finder look-alikes, a few bars and dots - the latter also in bulk under PURE_BARCODE for the 2-D readers); hint maps over all twelve decode hints with well-typed values. Every RowDecoder on rows (random runs of length 1..400, symbol rows clean / with odd margins / mutated / ending mid-symbol, rows ending at every pixel of a symbol's last 14 modules with the row length 0/1/31 modulo 32, every row of length 1..12). The three raw decoders on valid, mutated, arbitrary, tiny and non-square matrices (Aztec: all 36 sizes, matching and non-matching matrix sizes and data-block counts, plus every size x the boundary data-block counts a mode message can announce). The three bit-stream parsers on random bytes/bits, reference-encoded streams cut after every bit (byte for Data Matrix), hostile segment sequences, every alphanumeric text of up to five characters over {A, 1, %} after FNC1 in first / second position, every QR mode nibble x version class, every ECI designator 0..999999 (QR: every byte form; Aztec: FLG(n) digits), every Data Matrix stream of up to two codewords (thorough: three after each latch), every Aztec bit string up to 14 (thorough: 18) bits. Structured-append QR symbol sets (2..4 members built by qrref, byte/alphanumeric/numeric/kanji data, optional ECI, complete and incomplete) side by side through DecodeMultiple and single members through QRCodeReader. Three QR entry points on images tiled with finder patterns of growing side 40..520 with the CPU time of each call measured. Per call: recover(), CPU/heap budget, exactly one of result/error, and for the image-level readers an error of the NotFound/Checksum/Format kinds. distinct = distinct (target, input description, hints)")
+	c.Rule("19 reader configurations (QR, Data Matrix, Aztec, QR multi reader through Decode and DecodeMultiple, EAN-13, EAN-8, UPC-A, UPC-E, multi-format UPC/EAN with and without POSSIBLE_FORMATS, Code 39 x {check, extended}, Code 93, Code 128, ITF, Codabar, RSS-14), each on seeded images through BOTH the hybrid and the global-histogram binariser (a quarter of them handed over as packed-RGB or planar-YUV luminance sources, which cannot be rotated): valid symbols of the reader's symbology (library writers, qrref/dmref/azref/onedref, an RSS-14 encoder) unmutated in a scanner-friendly rendering, or mutated at module level (flips, row/column deletion and duplication, crops through finder/guards, pasted noise, truncation, mirroring/inversion, combinations) and rendered with scale 1-4, quiet zone 0-10, arbitrary grey levels incl. low contrast, grey ramps, pixel noise and flips, alpha (NRGBA constant / noisy / symbol carried by alpha), RGBA tints, Gray16, Paletted, sub-images with a non-zero origin, canvases of 39/40/41 pixels and up to 800 pixels, one image in five turned by an arbitrary angle / sheared / scaled by a real factor; every second case keeps one reader instance for all its images; symbols of other symbologies; synthetic images (noise, constant, 1x1..3x3, stripes, checkerboards, finder look-alikes, a few bars and dots - the latter also in bulk under PURE_BARCODE for the 2-D readers); hint maps over all twelve decode hints with well-typed values. Every RowDecoder on rows (random runs of length 1..400, symbol rows clean / with odd margins / mutated / ending mid-symbol, rows ending at every pixel of a symbol's last 14 modules with the row length 0/1/31 modulo 32, every row of length 1..12). The three raw decoders on valid, mutated, arbitrary, tiny and non-square matrices (Aztec: all 36 sizes, matching and non-matching matrix sizes and data-block counts, plus every size x the boundary data-block counts a mode message can announce). The three bit-stream parsers on random bytes/bits, reference-encoded streams cut after every bit (byte for Data Matrix), hostile segment sequences, every alphanumeric text of up to five characters over {A, 1, %} after FNC1 in first / second position, every QR mode nibble x version class, every ECI designator 0..999999 (QR: every byte form; Aztec: FLG(n) digits), every Data Matrix stream of up to two codewords (thorough: three after each latch), every Aztec bit string up to 14 (thorough: 18) bits. Structured-append QR symbol sets (2..4 members built by qrref, byte/alphanumeric/numeric/kanji data, optional ECI, complete and incomplete) side by side through DecodeMultiple and single members through QRCodeReader. Three QR entry points on images tiled with finder patterns of growing side 40..520 with the CPU time of each call measured. Per call: recover(), CPU/heap budget, exactly one of result/error, and for the image-level readers an error of the NotFound/Checksum/Format kinds. distinct = distinct (target, input description, hints)")
 	c.Assume("hint values have the Go types the readers assert (flag hints: any value incl. nil, as documented; CHARACTER_SET: string or encoding.Encoding; []gozxing.BarcodeFormat; []int; gozxing.ResultPointCallback incl. a nil one); images are at least 1x1, rows at least 1 long; Aztec detector results name 1..32 layers (compact 1..4) and at least one data block")
 	c.Assume("budget: the framework's 20 CPU-s / 1.5 GiB per case; in the tiled-finder-pattern cases one call needing more than 2 CPU-s on an image of at most 520x520 pixels is charged (signature <target>:budget:tiled-finder-patterns) because the following sizes of the escalation exceed the case budget (measured: DecodeMultiple 200x200 = 50 CPU-s)")
 	c.Assume("DESIGN C06 don't-care: DecodeMultiple returning an empty non-nil slice with nil error; raw decoders, row decoders and parsers may return any non-nil error (kind tallied, not charged); results are not checked for content")
@@ -1614,6 +1637,7 @@ func c06(c *fw.Ctx) {
 	c.Floor("aztec/decoder.Decode size x announced data-block count sweep", 700)
 	c.Floor("rows ending in the last modules of a symbol, length 0/1/31 mod 32", 20000)
 	c.Floor("pure-barcode reads of images of a few bars and dots", 10000)
+	c.Floor("images through the RGB / planar YUV luminance sources", 10000)
 	for _, t := range []string{"qrcode/decoder.Decode", "datamatrix/decoder.Decode", "aztec/decoder.Decode"} {
 		c.Floor(t+" result", 300)
 		c.Floor(t+" errors", 1000)
